@@ -677,6 +677,8 @@ constexpr void url_aggregator::clear_hostname() {
     return;
   }
   ADA_ASSERT_TRUE(has_authority());
+  // An empty host is neither an IPv4 nor an IPv6 address.
+  host_type = DEFAULT;
 
   uint32_t hostname_length = components.host_end - components.host_start;
   uint32_t start = components.host_start;
